@@ -26,11 +26,18 @@ NSAMP = [2, 12, 30]
 def integrate_history(xx, epochs, passing, phi0=None):
     import dadi
     phi = dadi.PhiManip.phi_1D(xx) if phi0 is None else phi0
+    t0 = 0.0
     for nu, T in epochs:
         if passing == 'func':
             phi = dadi.Integration.one_pop(phi, xx, T, nu=(lambda t, v=nu: v))
+        elif passing == 'const_abs':
+            # the same epoch written in absolute time: from initial_t = t0 to T = t0 + duration
+            phi = dadi.Integration.one_pop(phi, xx, t0 + T, nu=nu, initial_t=t0)
+        elif passing == 'func_abs':
+            phi = dadi.Integration.one_pop(phi, xx, t0 + T, nu=(lambda t, v=nu: v), initial_t=t0)
         else:
             phi = dadi.Integration.one_pop(phi, xx, T, nu=nu)
+        t0 += T
     return phi
 
 
@@ -140,6 +147,17 @@ def case_history(col, p):
                     d = float(np.abs(a / b - 1).max())
                     if not d <= 1e-9:
                         col.violation('C01:history:constant_vs_function_passing', dict(info, n=n, mode=mode, ladder=rs), {'maxrel': d})
+        # epochs written in absolute time (initial_t .. T) are the same epochs
+        dadi.Integration.timescale_factor = 1e-3
+        if epochs:
+            xx_a = dadi.Numerics.default_grid(40)
+            ref_a = integrate_history(xx_a, epochs, 'const')
+            for mode_a in ('const_abs', 'func_abs'):
+                got_a = integrate_history(xx_a, epochs, mode_a)
+                col.tick(transitions=len(epochs))
+                e_a = float(np.abs(got_a / ref_a - 1)[1:-1].max())
+                if not e_a <= 1e-7:
+                    col.violation('C01:one_pop:initial_t:%s' % mode_a, info, {'maxrel': e_a})
         # library wrappers
         dadi.Integration.timescale_factor = 1e-4
         n = 12
@@ -375,7 +393,29 @@ def case_sel_wrappers(col, p):
     col.distinct('nontrivial', ('sel_wrappers', gamma))
 
 
-CASES = {'sel_wrappers': case_sel_wrappers, 'history': case_history, 'growth': case_growth, 'density': case_density, 'closed_form': case_closed_form, 'stationary': case_stationary}
+def case_density_history(col, p):
+    """phi_1D called for a SEQUENCE of (nu, beta) at the same gamma, h and grid in one process: each result must equal the density of the
+    equivalent reference-size problem, phi_1D(nu=1, beta=1, theta0*nu*bf, gamma*nu*bf) with bf = 4 beta/(beta+1)^2, whatever was computed before"""
+    import dadi
+    xx = dadi.Numerics.default_grid(16)
+    gamma, h = p['gamma'], p['h']
+    n = 0
+    for order in itertools.permutations(p['nubetas']):
+        for k, (nu, beta) in enumerate(order):
+            bf = 4.0 * beta / (beta + 1.0) ** 2
+            a = dadi.PhiManip.phi_1D(xx, nu=nu, theta0=1.3, gamma=gamma, h=h, beta=beta)
+            b = dadi.PhiManip.phi_1D(xx, nu=1.0, theta0=1.3 * nu * bf, gamma=gamma * nu * bf, h=h, beta=1)
+            col.tick(transitions=2)
+            n += 1
+            err = float(np.abs(a - b).max() / np.abs(b).max())
+            if not err <= 1e-9:
+                col.violation('C01:phi_1D:result_depends_on_history', dict(p, order=[list(x) for x in order], position=k), {'relerr': err})
+                break
+    col.tick(states=n, traces=n)
+    col.distinct('nontrivial', ('density_history', gamma, h))
+
+
+CASES = {'density_history': case_density_history, 'sel_wrappers': case_sel_wrappers, 'history': case_history, 'growth': case_growth, 'density': case_density, 'closed_form': case_closed_form, 'stationary': case_stationary}
 
 
 def _dispatch(col, case):
@@ -420,6 +460,8 @@ def run(ctx):
             cases.append({'kind': 'stationary', 'nu': nu, 'gamma': gamma, 'h': h, 'beta': beta, 'Ts': [0.5 * nu, 4.0 * min(nu, 1.0)]})
     for gamma in (-40.0, -6.0, -1.0, 0.0, 1.0, 5.0, 40.0):
         cases.append({'kind': 'sel_wrappers', 'gamma': gamma, 'Ts': [0.3, 0.7]})
+    for gamma, h in ((-5.0, 0.2), (3.0, 0.8), (-400.0, 0.0), (2.0, 0.5)):
+        cases.append({'kind': 'density_history', 'gamma': gamma, 'h': h, 'nubetas': [[0.1, 1.0], [1.0, 5.0], [10.0, 0.2]]})
     cases.sort(key=lambda c: -(sum(e[1] / e[0] for e in c.get('epochs', [])) + (50 if c['kind'] in ('closed_form', 'stationary') else 0)))
     explore.pmap(ctx, _dispatch, cases, chunk=1)
     ctx.tick(evaluations=len(cases))
